@@ -255,18 +255,78 @@ pub fn check_sim(case: &c01::Case, info: &mut CaseInfo) -> Result<(), Fail> {
     with_world("c02-", |root| run_sim(case, info, root))
 }
 
+// ------------------------------------------------------------------------------------------------
+// tier B, chunk-heavy: one receiver gets the versions of an origin (and a relay) as many small,
+// non-adjacent, repeated seq-range chunks in separate batches (the C03 generator) - the advertised
+// missing ranges and the persisted partial records must stay exact after every single chunk
+
+async fn run_chunks(case: &crate::c03::Case, info: &mut CaseInfo, root: std::path::PathBuf) -> Result<(), Fail> {
+    let mut w = World::new(3, &root).await?;
+    for op in &case.prefix {
+        w.step(op, info).await?;
+    }
+    let mut eff = crate::world::Effects::default();
+    w.sync(1, 0, 0, false, true, &mut eff).await?;
+    w.apply(1, true, 0, &mut eff).await?;
+    for (i, op) in case.ops.iter().enumerate() {
+        let eff = w.step(op, info).await?;
+        if eff.skipped {
+            continue;
+        }
+        for n in 0..w.n() {
+            w.check_advertised(n).await.map_err(|mut f| {
+                f.msg = format!("after receiver op #{i} {op:?} (delivered {:?}): {}", eff.delivered, f.msg);
+                f
+            })?;
+            w.check_durable(n).await.map_err(|mut f| {
+                f.msg = format!("after receiver op #{i} {op:?} (delivered {:?}): {}", eff.delivered, f.msg);
+                f
+            })?;
+        }
+    }
+    w.quiesce(12, info).await?;
+    for n in 0..w.n() {
+        w.check_advertised(n).await?;
+        w.check_durable(n).await?;
+    }
+    w.classify(info);
+    // non-trivial: some version reached the receiver in >=2 partial chunks that are not adjacent
+    let mut nt = false;
+    for ((dst, _, _), ranges) in &w.chunk_log {
+        if *dst == 2 && ranges.windows(2).any(|x| x[1].0 > x[0].1 + 1 || x[1].1 + 1 < x[0].0) {
+            nt = true;
+        }
+    }
+    if nt {
+        info.class("non-adjacent-chunks-of-one-version");
+    }
+    info.nontrivial = nt;
+    Ok(())
+}
+
+pub fn check_chunks(case: &crate::c03::Case, info: &mut CaseInfo) -> Result<(), Fail> {
+    with_world("c02c-", |root| run_chunks(case, info, root))
+}
+
 pub fn run(ctx: &Ctx, rep: &mut Report) {
     if ctx.worker == 0 && ctx.wants("sweep") {
         sweep(ctx, rep);
     }
-    let (n_gaps, n_sim, ops) = match ctx.tier {
-        Tier::Quick => (100_000, 300, 24),
-        Tier::Thorough => (3_000_000, 10_000, 50),
+    let (n_gaps, n_sim, ops, n_chunks, chunk_ops) = match ctx.tier {
+        Tier::Quick => (100_000, 300, 24, 300, 16),
+        Tier::Thorough => (3_000_000, 10_000, 50, 10_000, 40),
     };
     run_prop(ctx, rep, "gaps", gcase_strategy(), n_gaps, 6000, check_gaps);
     run_prop(ctx, rep, "sim", c01::case_strategy(ops), n_sim, 200, check_sim);
+    run_prop(ctx, rep, "chunks", crate::c03::case_strategy(chunk_ops), n_chunks, 200, check_chunks);
 }
 
 pub fn replay(sub: &str, case: &serde_json::Value) -> Result<CaseInfo, Fail> {
-    if sub.starts_with("sim") { replay_case::<c01::Case, _>(case, check_sim) } else { replay_case::<GCase, _>(case, check_gaps) }
+    if sub.starts_with("sim") {
+        replay_case::<c01::Case, _>(case, check_sim)
+    } else if sub.starts_with("chunks") {
+        replay_case::<crate::c03::Case, _>(case, check_chunks)
+    } else {
+        replay_case::<GCase, _>(case, check_gaps)
+    }
 }
